@@ -236,6 +236,15 @@ def cut_by_edges(body, start, target_blocks, cut_edges, also_blocks=()):
     return not (set(target_blocks) & r)
 
 
+def cut_by_success(program, body, pred, target_blocks, terms=None, start=0):
+    """Every path start ->* target passes an edge asserting that a value satisfying `pred` is Some/Ok/Continue — whichever
+    idiom tests it (`?`, match, if let, let else, is_ok()).  -> (holds, success edges)"""
+    ok, bad = success_edges(program, body, pred, terms)
+    if not ok:
+        return False, []
+    return cut_by_edges(body, start, target_blocks, ok), ok
+
+
 def switch_edges(body, bb):
     """{label: target} of a switch block"""
     t = body.term(bb)
@@ -1062,7 +1071,21 @@ class Terms:
             return None
         site_blocks = [s[0] if isinstance(s[0], int) and s[0] >= 0 else 0 for s in sites]
         common = set.intersection(*(dom.get(b, {0}) for b in site_blocks)) if site_blocks else {0}
-        cands = [d for d in dom[bb] if body.term(d) is not None and body.term(d)["k"] == "switch" and (d in common or common <= dom.get(d, set()))]
+        if level == 0:
+            cands = [d for d in dom[bb] if body.term(d) is not None and body.term(d)["k"] == "switch" and (d in common or common <= dom.get(d, set()))]
+        else:
+            # inside one edge of an outer selection: a switch gates the point if, with the outer decisions fixed,
+            # every path to the point passes through it (dominance in the restricted graph)
+            cands = []
+            for d in dom:
+                t = body.term(d)
+                if t is None or t["k"] != "switch" or body.blocks[d]["cleanup"] or not (d in common or common <= dom.get(d, set())):
+                    continue
+                if d == bb:
+                    continue
+                outs = {(d, sc) for sc in body.succs(d)}
+                if bb not in body.reachable(0, removed_edges=set(removed) | outs):
+                    cands.append(d)
         cands.sort(key=lambda d: len(dom[d]))
         full = set(sites)
         for D in cands:
